@@ -45,10 +45,24 @@ def witnessed(tm: TransformerModel, e: Effect, need: set[str]) -> str | None:
     if not (roles & need):
         return None
     # the method must really filter by membership in that collection
-    uses = any(
-        isinstance(n, ast.Compare) and isinstance(n.ops[0], (ast.In, ast.NotIn)) and unparse(n.comparators[0]) == f"self.{key[1]}"
-        for n in walk_no_nested(e.method.node)
-    )
+    # (the membership test may sit in a predicate method of the same class that the hook calls through self)
+    prog = tm.prog
+    seen: set[str] = set()
+    work = [e.method.name]
+    uses = False
+    while work:
+        name = work.pop()
+        if name in seen:
+            continue
+        seen.add(name)
+        m = e.method if name == e.method.name else prog.lookup_method(e.cls, name)
+        if m is None:
+            continue
+        for n in walk_no_nested(m.node):
+            if isinstance(n, ast.Compare) and isinstance(n.ops[0], (ast.In, ast.NotIn)) and unparse(n.comparators[0]) == f"self.{key[1]}":
+                uses = True
+            if isinstance(n, ast.Call) and isinstance(n.func, ast.Attribute) and isinstance(n.func.value, ast.Name) and n.func.value.id == "self":
+                work.append(n.func.attr)
     return reason if uses else None
 
 
